@@ -95,4 +95,15 @@ theorem jumpTable_has_model_ops :
 /-- the table has an entry for each opcode once -/
 theorem jumpTable_opcodes_distinct : (Gen.jumpTable.map (·.1)).Nodup := by decide +kernel
 
+/-- CREATE / CREATE2 hand their creator return data exactly when the creation REVERTED - not when it
+    failed in any other way (oversized code, unpaid deposit, ...) -/
+theorem opCreate_returns_data_only_after_revert (b : Bool) :
+    Gen.e_opCreate_returnsData (eq_suberr_errExecutionReverted := b) = b := rfl
+
+theorem opCreate2_returns_data_only_after_revert (b : Bool) :
+    Gen.t_opCreate2_returnsData
+      (eq_interpreter_evm_Create2_contract_input_gas_endowment_salt_suberr_errExecutionReverted := b) = "return res, nil" ↔ b = true := by
+  unfold Gen.t_opCreate2_returnsData
+  cases b <;> simp
+
 end AnnVerif.Ties
